@@ -3,6 +3,7 @@
 package rig
 
 import (
+	"bytes"
 	"strconv"
 	"time"
 
@@ -131,6 +132,29 @@ func BadChecksum(m []byte) []byte {
 		out[i]++
 	}
 	return out
+}
+
+// ChecksumOtherForm returns a copy whose CheckSum field carries the right number in a form that is not the
+// three-digit one: without its leading zeros when it has any, otherwise with a sign (k even) or one more zero (k odd).
+func ChecksumOtherForm(m []byte, k int) []byte {
+	cut := bytes.LastIndex(m[:len(m)-1], []byte{1})
+	if cut < 0 || len(m)-cut < 6 {
+		return m
+	}
+	digits := string(m[cut+4 : len(m)-1])
+	n, err := strconv.Atoi(digits)
+	if err != nil {
+		return m
+	}
+	v := strconv.Itoa(n)
+	if len(v) == 3 {
+		if k%2 == 0 {
+			v = "+" + v
+		} else {
+			v = "0" + v
+		}
+	}
+	return append(append([]byte(nil), m[:cut+1]...), []byte("10="+v+"\x01")...)
 }
 
 // BadLength returns a copy whose BodyLength value is off by one (checksum
